@@ -1247,24 +1247,27 @@ func (x Expr) FirstFound(data any) (any, bool) {
 					}
 				case Indexed:
 					size := tv.Size()
+					// Put prev back and slide fi.
+					stack[len(stack)-1] = prev
+					stack = append(stack, di|descentFlag)
 					if int(fi) == len(x)-1 { // last one
 						if 0 < size {
 							return tv.ValueAtIndex(0), true
 						}
-					} else {
-						for i := size - 1; 0 <= i; i-- {
-							v = tv.ValueAtIndex(i)
-							switch v.(type) {
-							case nil, bool, string, float64, float32, gen.Bool, gen.Float, gen.String,
-								int, uint, int8, int16, int32, int64, uint8, uint16, uint32, uint64, gen.Int:
-							case map[string]any, []any, gen.Object, gen.Array, Keyed, Indexed:
-								stack = append(stack, v)
-							default:
-								if rt := reflect.TypeOf(v); rt != nil {
-									switch rt.Kind() {
-									case reflect.Ptr, reflect.Slice, reflect.Struct, reflect.Array, reflect.Map:
-										stack = append(stack, v)
-									}
+					}
+					for i := size - 1; 0 <= i; i-- {
+						v = tv.ValueAtIndex(i)
+						switch v.(type) {
+						case nil, bool, string, float64, float32, gen.Bool, gen.Float, gen.String,
+							int, uint, int8, int16, int32, int64, uint8, uint16, uint32, uint64, gen.Int:
+						case map[string]any, []any, gen.Object, gen.Array, Keyed, Indexed:
+							stack = append(stack, v)
+							stack = append(stack, fi|descentChildFlag)
+						default:
+							if rt := reflect.TypeOf(v); rt != nil {
+								switch rt.Kind() {
+								case reflect.Ptr, reflect.Slice, reflect.Struct, reflect.Array, reflect.Map:
+									stack = append(stack, v)
 								}
 							}
 						}
